@@ -154,6 +154,22 @@ def run(tier, t0):
         time.sleep(0.3)
         situations += 1
         records += probes(topo, origin, "stalled-handshakes/%s_%s/%d-clients" % (key[0], key[1], len(batch)), rules_body)
+    # requests the http listener refuses (wrong method, unknown Proxy-Protocol) that announce a body and stall inside it
+    for head in (b"POST http://127.0.0.1/ HTTP/1.1\r\nHost: x\r\nContent-Length: 100\r\n\r\n",
+                 b"CONNECT 127.0.0.1:9 HTTP/1.1\r\nProxy-Protocol: sctp\r\nContent-Length: 100\r\n\r\n",
+                 b"GET / HTTP/1.1\r\nContent-Length: 70000\r\n\r\n"):
+        batch = []
+        for nbody in (0, 1, 50, 99):
+            try:
+                s = socket.create_connection(("127.0.0.1", topo.ports[("http", "direct")]), timeout=3)
+                s.sendall(head + b"x" * nbody)
+                batch.append(s)
+            except OSError:
+                pass
+        held += batch
+        time.sleep(0.3)
+        situations += 1
+        records += probes(topo, origin, "stalled-in-refused-request-body/%s/%d-clients" % (head.split(b" ")[0].decode(), len(batch)), rules_body)
     # a stalled client in every state at once, through a gc tick
     time.sleep(1.2)
     records += probes(topo, origin, "all-stalled-handshakes/%d-clients" % len(held), rules_body)
